@@ -20,7 +20,8 @@ EXPLANATION = (
     "points are in different sets and unites them, and stops after num_cliques - 1 edges; (R4) no hash-order-dependent iteration is "
     "reachable in the chordal module (C05.R2 re-run), so the tree is a function of the pattern."
     " (R5) connect_graph links every column without sub-diagonal entry to its successor with a nonzero structural entry (set_entry discards new zeros), for columns 0..n-1, and find_graph returns the connected pattern."
-    " (R6) clique-graph merge: the removed clique is deleted from the adjacency table and purged from every remaining adjacency set; (R7) every test that decodes the signed supernode array of pothen_sun is `< 0` (0 is a valid representative), the unassigned test is `== -1`; (R8) clique_tree_from_graph recomputes the edge weights as intersection sizes unconditionally before Kruskal, then parents, post-order, split.")
+    " (R6) clique-graph merge: the removed clique is deleted from the adjacency table and purged from every remaining adjacency set; (R7) every test that decodes the signed supernode array of pothen_sun is `< 0` (0 is a valid representative), the unassigned test is `== -1`; (R8) clique_tree_from_graph recomputes the edge weights as intersection sizes unconditionally before Kruskal, then parents, post-order, split."
+    " (R9) the generic merge loop stops when one clique is left, whatever the strategy; connect_graph takes no copy of the index arrays it mutates.")
 ASSUMPTIONS = ['rustc MIR construction and trait resolution are correct',
                'sortperm_rev / permute / findnz mean what their names say (C16 territory)']
 
@@ -280,6 +281,36 @@ def tree_from_graph(rep, F, tag):
     R.guard(body)
 
 
+def merge_loop(rep, F, tag):
+    """The generic merge loop must stop as soon as a single clique is left, for every strategy: traverse() of the clique-graph strategy
+    takes the maximum over an edge set that is empty by then (findmax(..).unwrap()).  The stop belongs to the loop itself (a stop
+    delegated to update_strategy has to be mirrored in every strategy); and connect_graph must not read L's index arrays through a
+    copy taken before it starts inserting entries."""
+    R = rep.rule('C17.R9', 'merge_cliques leaves its loop when one clique is left, whatever the strategy; connect_graph reads the live column pointers')
+
+    def body():
+        f = F.one(name='merge_cliques')
+        n = 0
+        for val, ret, ev, tr in Walker(f, cut_loops=True).leaves():
+            calls = [e[1] for e in ev if e[0] == 'call']
+            if 'update_strategy' not in calls:
+                continue
+            n += 1
+            one = [v for k, v in val.items() if k in ('eq(1_usize, arg2.n_cliques)', 'eq(arg2.n_cliques, 1_usize)')] + [1 - v for k, v in val.items() if k in ('ne(1_usize, arg2.n_cliques)', 'lt(1_usize, arg2.n_cliques)')]
+            if not R.check(bool(one), 'single-clique-test' + tag,
+                           'a pass of the merge loop ends without testing n_cliques == 1: the next pass calls traverse() on a tree with a single clique (empty edge set: '
+                           'unwrap on None in the clique-graph strategy)', f.loc()):
+                continue
+            R.check((ret[0] == 's') == (one[0] == 1), 'single-clique-stops|%d%s' % (one[0], tag), 'with n_cliques == 1 being %s the loop %s' % (bool(one[0]), 'continues' if ret[0] == 'cut' else 'stops'), f.loc())
+        R.check(n >= 2, 'passes' + tag, 'only %d merge-loop passes analysed' % n, f.loc())
+        g = F.one(name='connect_graph')
+        snap = [canon(g.sym_operand(c.args[0])) for c in g.calls if c.callee.name in ('clone', 'to_vec', 'to_owned', 'clone_from') and c.args and canon(g.sym_operand(c.args[0])) in ('arg1.colptr', 'arg1.rowval')]
+        R.check(not snap, 'no-stale-snapshot' + tag,
+                'connect_graph copies %s and then inserts entries into L (set_entry shifts every later column pointer): later columns are scanned through a stale window' % snap, g.loc())
+
+    R.guard(body)
+
+
 def run(ctx, rep, tier):
     for cfg in (CONFIGS_THOROUGH if tier == 'thorough' else CONFIGS):
         F = ctx.facts(cfg)
@@ -290,6 +321,7 @@ def run(ctx, rep, tier):
         merge_bookkeeping(rep, F, tag)
         representative_encoding(rep, F, tag)
         tree_from_graph(rep, F, tag)
+        merge_loop(rep, F, tag)
     from . import c05, c04
     for cfg in CONFIGS:
         c05.hash_order(c04._Ren(rep, 'C05.R2', 'C17.R4'), ctx.facts(cfg), ctx.cg(cfg), '[%s]' % cfg)
